@@ -103,6 +103,26 @@ Theorem C16_valid_trace_sound : forall loc wls tr, consistent wls -> valid_trace
 Proof. exact valid_trace_sound. Qed.
 Print Assumptions C16_valid_trace_sound.
 
+(* the same from a PRE-POPULATED store (some requested objects already present, complete,
+   protected iff local): final store and soundness of the checker the harness evaluates *)
+Theorem C16_any_schedule_prepopulated : forall loc wls pre ps sched w' ps',
+  consistent wls -> (forall o b, In (o, b) pre -> In (o, b) (all_items wls)) ->
+  legal_all loc wls ps = true ->
+  run wls sched (pre_world loc pre) ps = Some (w', ps') -> all_done ps' = true ->
+  good_final loc wls w' /\ forall o, view w' o = expected loc wls o.
+Proof.
+  intros. assert (G : good_final loc wls w') by (eapply any_schedule_pre; eauto).
+  split; auto. apply view_expected; auto.
+Qed.
+Print Assumptions C16_any_schedule_prepopulated.
+
+Theorem C16_valid_trace_pre_sound : forall loc wls pre tr,
+  consistent wls -> valid_trace_pre loc wls pre tr = true ->
+  exists w ps', final_of_pre loc wls pre tr = Some (w, ps') /\ good_final loc wls w /\
+                forall o, view w o = expected loc wls o.
+Proof. exact valid_trace_pre_sound. Qed.
+Print Assumptions C16_valid_trace_pre_sound.
+
 (* the design's simple invariant is refuted by the faithful model: in an ACCEPTED trace of two
    writers with the same file, the object is complete and protected after 10 events and EMPTY
    (still protected) after the 11th, writer 1's reflink probe *)
